@@ -146,3 +146,33 @@ func VerifH_C12_field_normalisation() {
 	bf, _ := b.ToFloat()
 	verifAssert(sameF64(af, bf), "15.9.4.3: fields are ToInteger'd, then a year in 0..99 means 1900 + year")
 }
+
+// TimeClip (15.9.1.14) where a time value enters a Date object: the one-argument
+// constructor, setTime and Date.UTC with the value in its millisecond field, for any double: NaN beyond +-8.64e15 ms (and for NaN /
+// the infinities), otherwise the integer part, never -0.
+func VerifH_C12_timeclip() {
+	vm := New()
+	t := verifNondetFloat64()
+	vm.Set("t", t)
+	script := "new Date(t).getTime()"
+	switch verifChoose(3) {
+	case 1:
+		script = "var d = new Date(0); var r = d.setTime(t); [r === d.getTime() || (r !== r && d.getTime() !== d.getTime()), d.getTime()][1]"
+	case 2: // the millisecond field alone carries the time value (any magnitude is a valid field)
+		verifAssume(t == t && math.Abs(t) <= math.MaxFloat64)
+		script = "Date.UTC(1970, 0, 1, 0, 0, 0, t)"
+	}
+	v, ok := verifRun(vm, script)
+	verifCover("reached")
+	verifAssert(ok, "does not throw")
+	if !ok {
+		return
+	}
+	f, _ := v.ToFloat()
+	if t != t || math.Abs(t) > 8.64e15 {
+		verifAssert(f != f, "15.9.1.14 TimeClip: a time value beyond 8.64e15 ms is NaN")
+	} else {
+		want := refToInteger(t) + 0
+		verifAssert(sameF64(f, want), "15.9.1.14 TimeClip: ToInteger of the time value (+0 for -0)")
+	}
+}
